@@ -359,6 +359,16 @@ let handle line =
     resync ();
     Printf.sprintf "= perm=%d %s" (if okp then 1 else 0) (string_of_state ses.lvl)
   | ["RESYNC"] -> resync (); "= ok" ^ ideal_suffix ()
+  | ["ADDTX"; init; qs] ->
+    let taker = oid_of_string "u424242" in
+    let qs = parse_list n_of_string qs in
+    let (res, steps) = List.fold_left (fun (r, acc) q ->
+        let r' = add_transaction r { tx_idx = N0; tx_taker = taker; tx_maker = oid_of_string "u1"; tx_price = n_of_string "1";
+                                     tx_qty = q; tx_side = Buy } in
+        (r', acc @ [string_of_n r'.r_remaining ^ "/" ^ (if r'.r_complete then "1" else "0")]))
+        (result_new taker (n_of_string init), []) qs in
+    Printf.sprintf "= steps=[%s] rem=%s complete=%d exec=%s n=%d" (String.concat "," steps) (string_of_n res.r_remaining)
+      (if res.r_complete then 1 else 0) (string_of_n (executed_quantity res)) (List.length res.r_txs)
   | ["EXT"; via; cv; ch; cc; listing] ->
     let os = parse_list order_of_string listing in
     let p = ses.lvl.price in
